@@ -195,6 +195,10 @@ pub struct Fault {
 pub struct Shared<C: ChipModel> {
     pub chip: C,
     pub fault: Option<Fault>,
+    /// the SPI transaction right after the planned fault is lost as well (the recovery's first
+    /// bus access fails too)
+    pub also_next_spi: bool,
+    pub second_hit: Option<usize>,
     pub n_spi: u32,
     pub n_busy: u32,
     pub n_irq: u32,
@@ -213,7 +217,7 @@ pub struct Shared<C: ChipModel> {
 pub type Bus<C> = Rc<RefCell<Shared<C>>>;
 
 pub fn new_bus<C: ChipModel>(chip: C) -> Bus<C> {
-    Rc::new(RefCell::new(Shared { chip, fault: None, n_spi: 0, n_busy: 0, n_irq: 0, fault_hit: None, last_cmd: 0, last_mosi: vec![], fault_mosi: vec![], resets: 0, delays_ns: 0 }))
+    Rc::new(RefCell::new(Shared { chip, fault: None, also_next_spi: false, second_hit: None, n_spi: 0, n_busy: 0, n_irq: 0, fault_hit: None, last_cmd: 0, last_mosi: vec![], fault_mosi: vec![], resets: 0, delays_ns: 0 }))
 }
 
 impl<C: ChipModel> Shared<C> {
@@ -224,8 +228,13 @@ impl<C: ChipModel> Shared<C> {
         self.n_busy = 0;
         self.n_irq = 0;
         self.fault_hit = None;
+        self.second_hit = None;
     }
     fn due(&mut self, kind: FaultKind, n: u32) -> bool {
+        if self.also_next_spi && kind == FaultKind::Spi && self.fault_hit.is_some() && self.second_hit.is_none() {
+            self.second_hit = Some(self.chip.transcript().len());
+            return true;
+        }
         match self.fault {
             Some(f) if f.kind == kind && f.at == n && self.fault_hit.is_none() => {
                 self.fault_hit = Some(self.chip.transcript().len());
